@@ -416,6 +416,21 @@ def collect():
                 out.append((name, hits[0] if len(hits) == 1 else None))
         return out
 
+    x509cc = importlib.import_module('tlslite.x509certchain')
+    cert_chains = []
+    for fn in ('serverX509Cert.pem', 'serverRSAPSSCert.pem', 'serverECCert.pem', 'serverEd25519Cert.pem', 'serverDSACert.pem'):
+        try:
+            with open(os.path.join(REPO, 'tests', fn)) as f:
+                ch = x509cc.X509CertChain()
+                ch.parsePemList(f.read())
+        except Exception as e:  # noqa
+            raise Refuse('cannot load tests/%s: %r' % (fn, e))
+        cert_chains.append(ch)
+    cert_chains.append(None)
+    d['cert_kinds'] = [str(c.x509List[0].certAlg) if c is not None else 'none' for c in cert_chains]
+    if d['cert_kinds'] != ['rsa', 'rsa-pss', 'ecdsa', 'Ed25519', 'dsa', 'none']:
+        raise Refuse('test certificates have unexpected key types %r' % (d['cert_kinds'],))
+
     rows = {}
     for sid in d['all']:
         r = {}
@@ -439,6 +454,9 @@ def collect():
         # CipherSuite.filter_for_prfs: which PSK hashes (sha256, sha384, and None = unspecified) keep the suite
         r['filter_prfs'] = [(lambda x: bool(x[0] == 'ok' and sid in x[1]))(safe(CS.filter_for_prfs, [sid], [h]))
                             for h in ('sha256', 'sha384', None)]
+        # CipherSuite.filter_for_certificate: with which kind of server certificate the suite may be selected
+        r['filter_cert'] = [(lambda x: bool(x[0] == 'ok' and sid in x[1]))(safe(CS.filter_for_certificate, [sid], ch))
+                            for ch in cert_chains]
         r['keyupdate'] = key_update(sid) if r['tls13'] is not None else None
         # every secret-deriving use of the suite besides the record keys: calc_key per label x version
         # ((3,0) + extended master secret is not a defined combination), the exporter, the deprecated helpers
@@ -722,6 +740,29 @@ def suite_sources():
                                        and any(isinstance(y, ast.Expr) and isinstance(y.value, ast.Yield) for y in b.body)
                                        for b in n.body)
                         guards.append((t, iterated))
+    cert_sites = []
+    for fd in cls[0].body:
+        if not isinstance(fd, ast.FunctionDef):
+            continue
+
+        def visit(stmts, loop_vars):
+            for st in stmts:
+                lv = loop_vars
+                if isinstance(st, ast.For):
+                    names = [x.id for x in ast.walk(st.target) if isinstance(x, ast.Name)]
+                    lv = loop_vars + [names]
+                for n in ast.walk(st) if not isinstance(st, (ast.For, ast.While, ast.If, ast.Try, ast.With)) else \
+                        ast.walk(getattr(st, 'iter', None) or getattr(st, 'test', None) or ast.Pass()):
+                    if isinstance(n, ast.Call) and ast.unparse(n.func) == 'CipherSuite.filter_for_certificate' and len(n.args) == 2:
+                        arg = ast.unparse(n.args[1])
+                        inner = lv[-1] if lv else []
+                        cert_sites.append((fd.name, arg, 'loop' if (inner and arg == inner[0]) else ('no-loop' if not lv else 'not-loop-var')))
+                for fld in ('body', 'orelse', 'finalbody'):
+                    if getattr(st, fld, None):
+                        visit(getattr(st, fld), lv)
+                for h in getattr(st, 'handlers', []) or []:
+                    visit(h.body, lv)
+        visit(fd.body, [])
     if not rows:
         raise Refuse('no key-derivation calls found in TLSConnection')
     o = ['(* tlslite/tlsconnection.py: (function, callee, source text of the cipher-suite argument) of every call that derives',
@@ -731,7 +772,12 @@ def suite_sources():
          '(* _clientResume: every `if` comparing the ServerHello suite with the session suite: (test, the body iterates',
          '   self._sendError(...) and yields, i.e. the alert is really sent and the handshake aborted) *)',
          'Definition resume_suite_guards : list (string * bool) := [%s].\n' % '; '.join(
-             '(%s, %s)' % (sl(t), 'true' if it else 'false') for t, it in guards)]
+             '(%s, %s)' % (sl(t), 'true' if it else 'false') for t, it in guards),
+         '(* every call CipherSuite.filter_for_certificate(suites, X): (function, source of X, "loop" when the call sits in a',
+         '   `for cert, key in ...` loop over candidate key pairs and X is that loop\'s certificate variable, "not-loop-var"',
+         '   when it sits in such a loop but X is something else, "no-loop" otherwise) *)',
+         'Definition cert_filter_sites : list (string * string * string) := [%s].\n' % '; '.join(
+             '(%s, %s, %s)' % (sl(a), sl(b), sl(c)) for a, b, c in cert_sites)]
     return o
 
 
@@ -775,7 +821,9 @@ class SuitesUnit(object):
                                                      ((3,0), extended master secret) is undefined and emitted as None *)
   r_exporter : list (option string);              (* keyingMaterialExporter, versions (3,1)..(3,4) *)
   r_deprecated : list (string * option string);   (* calcMasterSecret / calcExtendedMasterSecret / calcFinished at (3,3) *)
-  r_filter_prfs : list bool                       (* s in filter_for_prfs([s], [h]) for h = "sha256", "sha384", None *)
+  r_filter_prfs : list bool;                      (* s in filter_for_prfs([s], [h]) for h = "sha256", "sha384", None *)
+  r_filter_cert : list bool                       (* s in filter_for_certificate([s], chain) for a server certificate with an
+                                                     rsa, rsa-pss, ecdsa, Ed25519, dsa key, and for no certificate *)
 }.
 ''')
         rows = []
@@ -787,7 +835,7 @@ class SuitesUnit(object):
             rows.append('{| r_id := %d; r_cipher_settings := %s; r_mac_settings := %s; r_canon_cipher := %s; '
                         'r_canon_mac := %s; r_prf_params := (%s, %d); r_calc_key_prf := [%s]; r_tls13 := %s; r_ffv := [%s]; '
                         'r_keyupdate := %s; r_ku_roles := [%s]; r_labels := [%s]; r_exporter := [%s]; r_deprecated := [%s]; '
-                        'r_filter_prfs := [%s] |}' % (
+                        'r_filter_prfs := [%s]; r_filter_cert := [%s] |}' % (
                             sid,
                             'None' if cs is None else '(Some (%d, %d, %s))' % (cs[0], cs[1], sl(cs[2])),
                             'None' if ms is None else '(Some (%d, %s))' % (ms[0], osl(ms[1])),
@@ -804,7 +852,8 @@ class SuitesUnit(object):
                             '; '.join('[' + '; '.join(osl(x) for x in row) + ']' for row in r['labels']),
                             '; '.join(osl(x) for x in r['exporter']),
                             '; '.join('(%s, %s)' % (sl(n), osl(k)) for n, k in r['deprecated']),
-                            '; '.join('true' if b else 'false' for b in r['filter_prfs'])))
+                            '; '.join('true' if b else 'false' for b in r['filter_prfs']),
+                            '; '.join('true' if b else 'false' for b in r['filter_cert'])))
         o.append('Definition rows : list suite_row := [\n  %s].\n' % ';\n  '.join(rows))
 
         def per_version(name, table, comment):
